@@ -136,6 +136,14 @@ def gen_cases(tier, seed):
                       "table_d": {c: rng.choice(["ignore", "cancel", "abandon"]) for c in TABLE_CONDS if rng.random() < 0.7},
                       "mode": rng.choice(["ack", "unack"]), "closure": rng.random() < 0.5, "imm": rng.random() < 0.5, "size": rng.choice([10, 10, 12, 17]),
                       "seed": seed * 1_000_003 + i, "decouple": rng.choice(["S", "D", None])})
+    # two consecutive transactions on the same handlers (fault state must not leak into the next transaction's fault handling)
+    n2 = 600 if tier == "quick" else 20000
+    for i in range(n2):
+        cases.append({"t": "sequence", "stim": [], "phases": [rng.sample(names, rng.choice([1, 2])), rng.sample(names, rng.choice([1, 1, 2]))],
+                      "table_s": {c: rng.choice(["ignore", "cancel", "abandon"]) for c in TABLE_CONDS if rng.random() < 0.5},
+                      "table_d": {c: rng.choice(["ignore", "cancel", "abandon"]) for c in TABLE_CONDS if rng.random() < 0.5},
+                      "mode": rng.choice(["ack", "unack"]), "closure": rng.random() < 0.5, "imm": rng.random() < 0.5, "size": rng.choice([10, 12, 17]),
+                      "seed": seed * 1_000_003 + 700_000 + i, "decouple": rng.choice(["S", "D", None])})
     cases.append({"t": "api"})
     return cases
 
@@ -170,9 +178,11 @@ def run_case(case):
     if case["t"] == "api":
         return run_api(case)
     rng = random.Random(case["seed"])
-    stim = case["stim"]
+    phases = case.get("phases") or [case["stim"]]
+    stim = set(phases[0])
+    all_stim = [x for ph in phases for x in ph]
     cfg = {"mode": case["mode"], "closure": case["closure"], "imm_nak": case["imm"], "size": case["size"], "seg": 4, "ack_limit": 2, "nak_limit": 2, "check_limit": 2,
-           "fh_src": case["table_s"], "fh_dst": case["table_d"], "disp": rng.random() < 0.5, "dest": "existing" if "reject_truncate" in stim else "file"}
+           "fh_src": case["table_s"], "fh_dst": case["table_d"], "disp": rng.random() < 0.5, "dest": "existing" if "reject_truncate" in all_stim else "file"}
     long_ivl = {"positive_ack_timer_interval_seconds": 5000.0, "nak_timer_interval_seconds": 5000.0}
     if case["decouple"] == "S":
         cfg["rc_at_dst"] = dict(long_ivl)  # the receiver's timers are slow: the sender declares first
@@ -196,21 +206,38 @@ def run_case(case):
             return None
 
         w.dst_fs.fault = fs_fault
-        actions = {}
-        if "cancel_src" in stim:
-            actions.setdefault(rng.choice([2, 3, 5]), []).append(("cancel", "S"))
-        if "cancel_dst" in stim:
-            actions.setdefault(rng.choice([2, 3, 5]), []).append(("cancel", "D"))
-        plan = StimPlan(stim, rng)
-        r = Runner(w, plan=plan, max_expiries=14, max_rounds=800, actions=actions)
         internal = None
-        try:
-            w.put()
-            outcome = r.run()
-        except InternalError as e:
-            outcome = "internal-error"
-            ex = w.log.of("exc")[-1]
-            internal = {"side": e.side, "etype": type(e.exc).__name__, "msg": str(e.exc)[:120], "frames": ex["frames"]}
+        outcome = "done"
+        for pi, ph in enumerate(phases):
+            stim.clear()
+            stim.update(ph)
+            w.dst_fs.counts.pop("write_data", None)
+            actions = {}
+            if "cancel_src" in stim:
+                actions.setdefault(rng.choice([2, 3, 5]), []).append(("cancel", "S"))
+            if "cancel_dst" in stim:
+                actions.setdefault(rng.choice([2, 3, 5]), []).append(("cancel", "D"))
+            plan = StimPlan(stim, rng)
+            r = Runner(w, plan=plan, max_expiries=14, max_rounds=800, actions=actions)
+            try:
+                w.put()
+                out = r.run()
+            except InternalError as e:
+                out = "internal-error"
+                ex = w.log.of("exc")[-1]
+                internal = {"side": e.side, "etype": type(e.exc).__name__, "msg": str(e.exc)[:120], "frames": ex["frames"]}
+            if out != "done":
+                outcome = out
+            if pi + 1 < len(phases):
+                # the next transaction starts on idle handlers (documented reset for transactions the library leaves waiting forever)
+                for ep in (w.S, w.D):
+                    if ep.h.state.name != "IDLE":
+                        ep.reset()
+                        ep.drain()
+                    ep.outbox.clear()
+                if internal is not None:
+                    break
+        stim = all_stim
         evs = w.log.events
         tables = {"S": dict(DEFAULTS, **case["table_s"]), "D": dict(DEFAULTS, **case["table_d"])}
         judged = 0
@@ -338,19 +365,36 @@ def run_case(case):
                 viol.append({"clause": "internal-exception-in-run-with-fault-declaration", **internal, "stimuli": stim, "tables": [case["table_s"], case["table_d"]]})
             else:
                 obs["internal_errors_without_declaration_not_judged_here"] = 1
-        # cancel requests are not fault declarations: no callback for them unless a fault was really declared
-        if not any(x["kind"] == "declare" for x in evs):
-            fhs = [(x["side"], x["which"], x["cond"]) for x in evs if x["kind"] == "fh"]
-            # the abandon callback after the positive ACK limit on a Finished(cancel)/EOF(cancel) is issued without a declaration (CFDP 4.11.2.x.y)
-            fhs = [f for f in fhs if f[1] != "abandon"]
-            if fhs:
-                viol.append({"clause": "fault-callback-without-fault-declaration", "callbacks": fhs, "stimuli": stim})
+        # callbacks outside a fault declaration: only the abandonment of a transaction whose cancellation is already being transferred
+        # (CFDP 4.11.2.2.3 / 4.11.2.3.2) is issued that way; a Cancel.request is not a fault declaration and fires no callback
+        windows = []
+        for i, e in enumerate(evs):
+            if e["kind"] == "declare":
+                ret_seq = next((x["seq"] for x in evs[i + 1 :] if x["kind"] == "declare_ret" and x["declare_seq"] == e["seq"]), float("inf"))
+                windows.append((e["side"], e["seq"], ret_seq))
+        for i, x in enumerate(evs):
+            if x["kind"] != "fh" or any(sd == x["side"] and a < x["seq"] < b for sd, a, b in windows):
+                continue
+            pending = False
+            for y in evs[:i]:
+                if y["kind"] == "enq" and y["side"] == x["side"] and y["raw"]:
+                    dd = wire.describe(y["raw"])
+                    if dd.get("kind") == ("EOF" if x["side"] == "S" else "FIN") and dd.get("cond") not in (None, "NO_ERROR") and x["tid"] is not None \
+                            and dd.get("h") and (dd["h"]["src"], dd["h"]["seq"]) == (x["tid"][0], x["tid"][2]):
+                        pending = True
+            if x["which"] != "abandon" or not pending:
+                viol.append({"clause": "fault-callback-without-fault-declaration", "callback": (x["side"], x["which"], x["cond"], x["tid"]), "stimuli": stim,
+                             "cancellation_pending": pending})
+                break
+            obs["abandon_callbacks_during_pending_cancellation"] = obs.get("abandon_callbacks_during_pending_cancellation", 0) + 1
         obs["declarations_judged"] = judged
         obs["outcome_" + outcome] = 1
         for v in viol:
             v["case"] = {k: case[k] for k in ("t", "mode", "closure", "imm", "size", "seed", "decouple", "table_s", "table_d")}
             v["trace"] = trace_summary(w, r, 60)
         sig = case if judged else None
+        if len(phases) > 1:
+            obs["two_transaction_runs"] = 1
         sample = {"stimuli": stim, "tables": [case["table_s"], case["table_d"]], "trace": trace_summary(w, r, 40)} if judged and case["t"] == "matrix" else None
         return {"viol": viol, "obs": obs, "sig": sig, "sample": sample}
 
